@@ -2,6 +2,8 @@ package nc
 
 import (
 	"fmt"
+	"go/ast"
+	"go/token"
 	"go/types"
 	"strings"
 
@@ -205,6 +207,7 @@ func (c *Ctx) afterEdges(o *Origins, from map[Edge]bool, cond *Cond) (bool, stri
 
 func rulesC05(c *Ctx) {
 	R := c.R
+	R.Rule("R9", "who may release locked inputs: every call chain to a DELETE on the pending table starts in the melt operation or the melt-quote poll (shared with C01.R11, C07.R6)", 3)
 	R.Rule("R8", "the storage readers of a melt quote report what is stored: every column scanned into a local (state kept as text, the MPP flag and amount) is carried into the returned quote", 4)
 	R.Rule("R1", "melt op / poll: spend + PAID only behind success facts; release + UNPAID only behind definitive-failure facts after a Failed pay; completeness on both edges; constants and preimage written", 30)
 	R.Rule("R2", "Lightning answer status is read only where the paired error is nil or after the Failed override", 4)
@@ -219,6 +222,7 @@ func rulesC05(c *Ctx) {
 	c.meltDecisionTable("R1", true)
 	c.c05Backends()
 	c.scannedLocalsReachResult("R8", "GetMeltQuote", "GetMeltQuoteByPaymentRequest")
+	c.ruleUnlockCallers("R9")
 	c.ruleResolveBeforeAnswer("R5")
 }
 
@@ -669,6 +673,50 @@ func (c *Ctx) c05Backends() {
 			}
 		}
 	}
+	c.c05NoZeroValueState("R3")
+}
+
+// c05NoZeroValueState: the zero value of lightning.State is Succeeded. A State variable declared without an
+// initial value therefore "defaults to success": a switch over the backend's text that misses a case, or an early
+// return, hands Succeeded on. No such variable may exist in the adapter package (the constant can only be chosen
+// explicitly).
+func (c *Ctx) c05NoZeroValueState(rule string) {
+	R := c.R
+	n := 0
+	for _, pkg := range c.P.Pkgs {
+		if c.P.Rel(pkg.PkgPath) != "mint/lightning" {
+			continue
+		}
+		for _, file := range pkg.Syntax {
+			ast.Inspect(file, func(nd ast.Node) bool {
+				gd, ok := nd.(*ast.GenDecl)
+				if !ok || gd.Tok != token.VAR {
+					return true
+				}
+				for _, sp := range gd.Specs {
+					vs, ok := sp.(*ast.ValueSpec)
+					if !ok || len(vs.Values) != 0 {
+						continue
+					}
+					for _, name := range vs.Names {
+						obj := pkg.TypesInfo.Defs[name]
+						if obj == nil {
+							continue
+						}
+						if nt, ok := obj.Type().(*types.Named); ok && nt.Obj().Name() == "State" && nt.Obj().Pkg() != nil && nt.Obj().Pkg().Path() == pkg.PkgPath {
+							n++
+							R.Check(rule, "mint/lightning", "State variable "+name.Name+" starts at an explicit value", c.P.Pos(name.Pos()), false,
+								"no variable of type State is declared without an initial value (its zero value means Succeeded)", "var "+name.Name+" State has no initialiser")
+						}
+					}
+				}
+				return true
+			})
+		}
+	}
+	if n == 0 {
+		R.Trivial(rule, "mint/lightning", "no State variable starts at its zero value", "mint/lightning", "every State variable of the adapter package is initialised explicitly")
+	}
 }
 
 // fromOwnTable: the status is read from the Invoices table of the in-memory fake backend (set by SetInvoiceStatus).
@@ -791,4 +839,68 @@ func (c *Ctx) ruleMeltPollCompleteness(rule string) {
 	}}
 	c.ruleMustHit(rule, "PENDING quote => payment status looked up", "a poll of a PENDING melt quote always asks the Lightning backend for the payment", op, []*Cond{notPending},
 		func(d *CallDesc) bool { m, ok := c.V.IsLNCall(d); return ok && m == c.V.StatusMeth })
+}
+
+// ruleUnlockCallers: who may release locked inputs. Every call chain that ends in a DELETE on the pending table
+// starts in the melt operation or in the melt-quote poll - the two places whose releases the decision table
+// decides. A release reached from anywhere else (start-up "recovery", the state check itself, a background task)
+// runs without those facts: it can free inputs of a melt whose payment is in flight or already settled.
+func (c *Ctx) ruleUnlockCallers(rule string) {
+	R := c.R
+	melt := c.V.Op("/v1/melt/{method}")
+	poll := c.V.Op("/v1/melt/quote/{method}/{quote_id}")
+	if melt == nil || poll == nil {
+		R.Unresolved(rule, "melt operation / melt-quote poll", "routes not resolved")
+		return
+	}
+	allowed := map[*ssa.Function]bool{melt: true, poll: true}
+	var direct []ssa.CallInstruction
+	for _, f := range c.P.Funcs {
+		top := EnclosingTop(f)
+		if top.Pkg == nil || c.P.Rel(top.Pkg.Pkg.Path()) == "testutils" {
+			continue
+		}
+		for _, ci := range Calls(f) {
+			if c.V.DBRole(c.P.Describe(ci), roleUnlock) {
+				direct = append(direct, ci)
+			}
+		}
+	}
+	if len(direct) == 0 {
+		R.Unresolved(rule, "calls that release pending proofs", "none found")
+		return
+	}
+	for _, ci := range direct {
+		start := EnclosingTop(ci.Parent())
+		ok, why := true, ""
+		seen := map[*ssa.Function]bool{}
+		var up func(g *ssa.Function, chain string, depth int)
+		up = func(g *ssa.Function, chain string, depth int) {
+			if !ok || allowed[g] || seen[g] {
+				return
+			}
+			seen[g] = true
+			if depth > 6 {
+				ok, why = false, "call chain too deep: "+chain
+				return
+			}
+			callers := c.callersOf(g)
+			if len(callers) == 0 {
+				ok = false
+				why = "released from " + c.P.FuncKey(g) + ", which is not reached from the melt operation or the melt-quote poll (chain: " + chain + ")"
+				return
+			}
+			for _, site := range callers {
+				h := EnclosingTop(site.Parent())
+				if _, isGo := site.(*ssa.Go); isGo {
+					ok, why = false, "released from a goroutine started in "+c.P.FuncKey(h)
+					return
+				}
+				up(h, c.P.FuncKey(h)+" -> "+chain, depth+1)
+			}
+		}
+		up(start, c.P.FuncKey(start), 0)
+		R.Check(rule, c.P.FuncKey(start), "pending proofs released only from the melt operation / the melt-quote poll", c.P.InstrPos(ci), ok,
+			"every call chain to a release of locked inputs starts in the melt operation or the melt-quote poll", why)
+	}
 }
